@@ -9,7 +9,7 @@ pub mod c07 {
     /// self-inclusive form, every content size whose total fits 28 bits, through the hook
     #[kani::proof]
     #[kani::unwind(6)]
-    fn q_inclusive_all_lengths() {
+    pub fn q_inclusive_all_lengths() {
         let len: usize = kani::any();
         kani::assume(len < (1usize << 28) - 4);
         let v = aml::verif_create_pkg_length(len, true);
@@ -47,7 +47,7 @@ pub mod c07 {
     /// exclusive form (field widths), every length below 2^28, through the hook
     #[kani::proof]
     #[kani::unwind(6)]
-    fn q_exclusive_all_lengths() {
+    pub fn q_exclusive_all_lengths() {
         let len: usize = kani::any();
         kani::assume(len < (1usize << 28));
         let v = aml::verif_create_pkg_length(len, false);
@@ -75,7 +75,7 @@ pub mod c07 {
     fn field_entry(named: bool) {
         let len: usize = kani::any();
         kani::assume(len < (1usize << 28));
-        let (path, root, segs) = sym_path::<1>();
+        let (path, root, segs) = sym_path_r::<1>(false);
         let name: [u8; 4] = kani::any();
         let entry = if named {
             aml::FieldEntry::Named(name, len)
@@ -121,13 +121,13 @@ pub mod c07 {
 
     #[kani::proof]
     #[kani::unwind(22)]
-    fn q_field_reserved_width() {
+    pub fn q_field_reserved_width() {
         field_entry(false);
     }
 
     #[kani::proof]
     #[kani::unwind(22)]
-    fn q_field_named_width() {
+    pub fn q_field_named_width() {
         field_entry(true);
     }
 }
